@@ -16,10 +16,11 @@ import (
 
 // config is one shard of the search space (also the replay header).
 type config struct {
-	Kind  string   `json:"kind"`            // "jb" (JitterBuffer), "pq" (PriorityQueue), "icpt" (interceptor reader)
-	Min   int      `json:"min,omitempty"`   // WithMinimumPacketCount (jb)
-	Seqs  []uint16 `json:"seqs,omitempty"`  // sequence-number alphabet (jb, pq)
-	Peeks bool     `json:"peeks,omitempty"` // Peek/PeekAtSequence/Find are symbols of the history (always probed after the last operation)
+	Kind  string   `json:"kind"`                    // "jb" (JitterBuffer), "pq" (PriorityQueue), "icpt" (interceptor reader)
+	Min   int      `json:"min,omitempty"`           // WithMinimumPacketCount (jb)
+	Pre   int      `json:"pushed_before,omitempty"` // consecutive packets pushed before the history starts (jb)
+	Seqs  []uint16 `json:"seqs,omitempty"`          // sequence-number alphabet (jb, pq)
+	Peeks bool     `json:"peeks,omitempty"`         // Peek/PeekAtSequence/Find are symbols of the history (always probed after the last operation)
 	Depth int      `json:"depth"`
 	First int      `json:"first"` // the shard explores the histories starting with this symbol (-1: all)
 	// interceptor only
@@ -179,6 +180,15 @@ func configs(tier string) []config {
 	} else {
 		shard(config{Kind: "jb", Min: 0, Seqs: seqs3, Peeks: true, Depth: 4})
 	}
+	// minimum-start counts beyond the buffer's overflow mark of 100 packets: the history starts a few packets
+	// below the mark / below the minimum
+	for _, mp := range [][2]int{{103, 99}, {150, 147}} {
+		d := 4
+		if thorough {
+			d = 5
+		}
+		shard(config{Kind: "jb", Min: mp[0], Pre: mp[1], Seqs: seqs3, Peeks: false, Depth: d})
+	}
 	// PriorityQueue
 	if thorough {
 		shard(config{Kind: "pq", Seqs: seqs6, Peeks: true, Depth: 7})
@@ -256,7 +266,7 @@ func init() {
 		ID: "C18",
 		Rule: "E2 explicit-state search (breadth-first, every history replayed on a fresh instance inside vsched.Run with a step budget; states distinct by deep hash of the " +
 			"implementation + reference): (jb) all histories up to the depth over Push(seq,ts in {a,b}), Pop, PopAtSequence(seq), PopAtTimestamp(ts), Clear(true|false), " +
-			"SetPlayoutHead(seq) [and, in the configurations with peek symbols, Peek(true|false), PeekAtSequence(seq)] on jitterbuffer.New(WithMinimumPacketCount(0|1|2|3)), " +
+			"SetPlayoutHead(seq) [and, in the configurations with peek symbols, Peek(true|false), PeekAtSequence(seq)] on jitterbuffer.New(WithMinimumPacketCount(0|1|2|3, and 103|150 after a run of 99|147 packets)), " +
 			"seq over {65535,0}, {65535,0,1} or {65534,65535,0,1,2,3}; (pq) the same on the exported PriorityQueue (Push, Pop, PopAt, PopAtTimestamp, Clear, Find; Length after every operation); " +
 			"(icpt) the RTPReader returned by the receiver interceptor after a scripted prefix (49 in-order packets; 1 packet, one lost, 47 packets; 47 packets; 60 packets + " +
 			"UnbindRemoteStream/BindRemoteStream + 49 packets; first number 65500 so that the wrap lies inside the buffer, or 100) followed by all suffixes over " +
